@@ -468,19 +468,135 @@ Proof. destruct ne; reflexivity. Qed.
 Lemma temp_not_byfilter fh ne : is_byfilter (temp_outcome fh ne) = false.
 Proof. destruct fh, ne; reflexivity. Qed.
 
-Lemma filtermsg_doc fh ne frs : forall seen,
-  existsb (fun r => fres_eqb r FDeniedMsg) (firstn (snd (doc_combine fh ne frs seen 0)) frs)
-  = is_byfilter (fst (doc_combine fh ne frs seen 0)).
+(** ** the interface discipline of the filters: a reply of its own exactly with "denied with message", and then a 5xx *)
+
+Definition good_msg (t : bytes) : Prop := reply_fits DRejectByFilter [head9 t] false = true.
+
+Definition disciplined (x : fres * option bytes) : Prop :=
+  match snd x with
+  | None => fst x <> FDeniedMsg
+  | Some t => fst x = FDeniedMsg /\ good_msg t
+  end.
+
+Lemma passed_disciplined : disciplined passed.
+Proof. unfold disciplined, passed. simpl. discriminate. Qed.
+
+Ltac disc_cases :=
+  repeat match goal with
+         | |- context [if ?c then _ else _] => destruct c
+         end;
+  try exact passed_disciplined;
+  unfold disciplined, good_msg; simpl fst; simpl snd;
+  try discriminate;
+  try (split; reflexivity).
+
+Lemma cb_boolean_disciplined s uc dc gc : disciplined (cb_boolean s uc dc gc).
+Proof. unfold cb_boolean. disc_cases. Qed.
+
+Lemma cb_usersize_disciplined s uc dc gc : disciplined (cb_usersize s uc dc gc).
+Proof. unfold cb_usersize. cbv zeta. disc_cases. Qed.
+
+Lemma cb_smtpbugs_disciplined s uc dc gc : disciplined (cb_smtpbugs s uc dc gc).
+Proof. unfold cb_smtpbugs. cbv zeta. disc_cases. Qed.
+
+Lemma spf_switch_temp p x : spf_switch p x = STemp -> x = SPF_TEMPERROR.
 Proof.
-  induction frs as [|r rest IH]; intros seen.
-  - cbn [doc_combine fst snd firstn existsb]. destruct seen; [|reflexivity].
-    symmetry. apply (temp_not_byfilter fh ne).
-  - cbn [doc_combine]. destruct r; cbn [fst snd];
-      try (rewrite (doc_combine_shift fh ne rest _ 1); cbn [fst snd firstn existsb Nat.add]; rewrite IH; reflexivity).
-    + reflexivity.
-    + cbn [firstn existsb]. rewrite unspecific_not_byfilter. reflexivity.
-    + reflexivity.
-    + reflexivity.
+  unfold spf_switch, spf_case6, spf_case5, spf_case4, spf_case3, spf_case2, spf_case1.
+  intros H.
+  destruct (N.eqb x SPF_TEMPERROR) eqn:E; [apply N.eqb_eq in E; exact E|].
+  repeat match type of H with
+         | (if ?c then _ else _) = _ => destruct c
+         end; discriminate.
+Qed.
+
+(** cb_spf keeps the discipline outside the class of finding F-C12-3 *)
+Lemma cb_spf_disciplined s uc dc gc :
+  (N.eqb (s_spf s) SPF_TEMPERROR
+   && (0 <? setting_value (getsettingglobal uc dc gc KEY_SPFPOLICY))%Z
+   && (setting_value (getsetting uc dc gc KEY_SPF_FAIL_HARD) <=? 0)%Z) = false ->
+  disciplined (cb_spf s uc dc gc).
+Proof.
+  intros Hcl. unfold cb_spf. cbv zeta.
+  destruct (N.eqb (s_spf s) SPF_PASS || N.eqb (s_spf s) SPF_IGNORE); [exact passed_disciplined|].
+  destruct (setting_value (getsettingglobal uc dc gc KEY_SPFPOLICY) <=? 0)%Z eqn:Ep; [exact passed_disciplined|].
+  destruct (spf_switch (setting_value (getsettingglobal uc dc gc KEY_SPFPOLICY)) (s_spf s)) eqn:Esw.
+  - unfold disciplined, good_msg. simpl. split; reflexivity.
+  - exact passed_disciplined.
+  - unfold disciplined, good_msg. simpl. split; reflexivity.
+  - apply spf_switch_temp in Esw.
+    destruct (setting_value (getsetting uc dc gc KEY_SPF_FAIL_HARD) <=? 0)%Z eqn:Ef.
+    + exfalso. rewrite Esw, N.eqb_refl in Hcl. apply Z.leb_gt in Ep. apply Z.ltb_lt in Ep. rewrite Ep in Hcl. discriminate.
+    + unfold disciplined. simpl. discriminate.
+Qed.
+
+Lemma run_slot_disciplined id sl s uc dc gc x :
+  (sl = RealFilter -> id = ID_SPF ->
+     (N.eqb (s_spf s) SPF_TEMPERROR
+      && (0 <? setting_value (getsettingglobal uc dc gc KEY_SPFPOLICY))%Z
+      && (setting_value (getsetting uc dc gc KEY_SPF_FAIL_HARD) <=? 0)%Z) = false) ->
+  run_slot id sl s uc dc gc = Some x -> disciplined x.
+Proof.
+  intros Hcl H. destruct sl as [r|]; simpl in H.
+  - inversion H; subst x. unfold disciplined. simpl.
+    destruct r; simpl; try discriminate. split; reflexivity.
+  - destruct (Nat.eqb id ID_BOOLEAN); [inversion H; apply cb_boolean_disciplined|].
+    destruct (Nat.eqb id ID_SMTPBUGS); [inversion H; apply cb_smtpbugs_disciplined|].
+    destruct (Nat.eqb id ID_SPF) eqn:E; [inversion H; apply cb_spf_disciplined; apply Hcl; [reflexivity|apply Nat.eqb_eq; exact E]|].
+    destruct (Nat.eqb id ID_USERSIZE); [inversion H; apply cb_usersize_disciplined|discriminate].
+Qed.
+
+Lemma sequence_forall {A} (P : A -> Prop) (l : list (option A)) rs :
+  sequence l = Some rs -> (forall x, In (Some x) l -> P x) -> Forall P rs.
+Proof.
+  revert rs. induction l as [|[a|] l IH]; intros rs H HP; simpl in H.
+  - inversion H. constructor.
+  - destruct (sequence l) as [rs'|] eqn:E; [|discriminate]. inversion H; subst rs.
+    constructor; [apply HP; left; reflexivity|]. apply IH; [reflexivity|]. intros x Hx. apply HP. right. exact Hx.
+  - discriminate.
+Qed.
+
+Lemma all_results_disciplined slots s uc dc gc results :
+  spf_temp_class slots s uc dc gc = false ->
+  all_results slots s uc dc gc = Some results -> Forall disciplined results.
+Proof.
+  intros Hcl H. unfold all_results in H.
+  apply (sequence_forall disciplined _ _ H).
+  intros x Hin. apply in_map_iff in Hin. destruct Hin as [id [Hrun _]].
+  apply (run_slot_disciplined id (nth id slots (Standin FPassed)) s uc dc gc); [|exact Hrun].
+  intros Hreal Hid. subst id. unfold spf_temp_class in Hcl. rewrite Hreal in Hcl. exact Hcl.
+Qed.
+
+Lemma nth_disciplined results id : Forall disciplined results -> disciplined (nth id results passed).
+Proof.
+  intros H. destruct (Nat.lt_ge_cases id (length results)) as [Hlt|Hge].
+  - rewrite Forall_forall in H. apply H. apply nth_In. exact Hlt.
+  - rewrite nth_overflow by exact Hge. exact passed_disciplined.
+Qed.
+
+(** the replies the consulted filters have sent themselves: none, or the one of the deciding filter *)
+Lemma msgs_doc fh ne inorder : Forall disciplined inorder -> forall seen,
+  (is_byfilter (fst (doc_combine fh ne (map fst inorder) seen 0)) = false /\
+   collect_msgs (firstn (snd (doc_combine fh ne (map fst inorder) seen 0)) inorder) = []) \/
+  (fst (doc_combine fh ne (map fst inorder) seen 0) = DRejectByFilter /\
+   exists t, collect_msgs (firstn (snd (doc_combine fh ne (map fst inorder) seen 0)) inorder) = [t] /\ good_msg t).
+Proof.
+  induction inorder as [|[r m] rest IH]; intros Hall seen.
+  - left. cbn [map doc_combine fst snd firstn collect_msgs]. split; [|reflexivity].
+    destruct seen; [apply (temp_not_byfilter fh ne)|reflexivity].
+  - inversion Hall as [|? ? Hx Hrest]; subst. specialize (IH Hrest).
+    unfold disciplined in Hx. cbn [fst snd] in Hx. cbn [map fst doc_combine].
+    destruct r; cbn [fst snd].
+    + (* FError *) destruct m as [t|]; [destruct Hx; discriminate|].
+      rewrite (doc_combine_shift fh ne (map fst rest) true 1). cbn [fst snd firstn Nat.add collect_msgs]. apply IH.
+    + (* FPassed *) destruct m as [t|]; [destruct Hx; discriminate|].
+      rewrite (doc_combine_shift fh ne (map fst rest) seen 1). cbn [fst snd firstn Nat.add collect_msgs]. apply IH.
+    + (* FDeniedMsg *) destruct m as [t|]; [|exfalso; apply Hx; reflexivity]. destruct Hx as [_ Hg].
+      right. split; [reflexivity|]. exists t. split; [reflexivity|exact Hg].
+    + destruct m as [t|]; [destruct Hx; discriminate|]. left. split; [apply unspecific_not_byfilter|reflexivity].
+    + destruct m as [t|]; [destruct Hx; discriminate|]. left. split; reflexivity.
+    + (* FDeniedTemp *) destruct m as [t|]; [destruct Hx; discriminate|].
+      rewrite (doc_combine_shift fh ne (map fst rest) true 1). cbn [fst snd firstn Nat.add collect_msgs]. apply IH.
+    + destruct m as [t|]; [destruct Hx; discriminate|]. left. split; reflexivity.
 Qed.
 
 Lemma nat_list_eqb_refl l : nat_list_eqb l l = true.
@@ -524,29 +640,43 @@ Proof.
 Qed.
 
 (** the reply templates of this source tree carry the documented codes *)
-Lemma templates_fit o :
-  reply_fits o ((if is_byfilter o then [FILTER_MSG_HEAD] else []) ++
-                match model_reply o with RNone => [] | RLine t => [head9 t] end) (is_accept o) = true.
-Proof. destruct o; reflexivity. Qed.
+Lemma templates_fit o : is_byfilter o = false ->
+  reply_fits o (match model_reply o with RNone => [] | RLine t => [head9 t] end) (is_accept o) = true.
+Proof. destruct o; intros H; try discriminate; reflexivity. Qed.
 
-Theorem checker_accepts_model outcomes um uf dm df gm gf key obs :
-  observe (rcpt_case outcomes um uf dm df gm gf key) = Some obs ->
-  spec_ok_C12 outcomes um uf dm df gm gf key obs <> VBad.
+Lemma Some_inj {A} (a b : A) : Some a = Some b -> a = b.
+Proof. intros H. inversion H. reflexivity. Qed.
+
+Theorem checker_accepts_model outcomes um uf dm df gm gf key sess obs :
+  in_spf_temp_class outcomes um uf dm df gm gf sess = false ->
+  observe (rcpt_case outcomes um uf dm df gm gf key sess) = Some obs ->
+  spec_ok_C12 outcomes um uf dm df gm gf key sess obs <> VBad.
 Proof.
-  unfold rcpt_case, spec_ok_C12. intros Hobs.
-  destruct (decode_outcomes outcomes) as [outc|]; [|discriminate].
-  destruct (negb (Nat.eqb (length outc) NFILTERS)); [discriminate|].
+  unfold rcpt_case, spec_ok_C12, in_spf_temp_class. intros Hcl Hobs.
+  destruct (decode_outcomes outcomes) as [slots|]; [|discriminate].
+  destruct (decode_session sess) as [s|]; [|discriminate].
+  destruct (negb (Nat.eqb (length slots) NFILTERS)); [discriminate|].
   destruct (load_level gm gf) as [gc|]; [|discriminate].
   destruct (load_configs um uf dm df) as [[uc dc]|]; [|discriminate].
+  destruct (all_results slots s uc dc gc) as [results|] eqn:Eres; [|discriminate].
   destruct (setting_on (doc_setting false (level_says uc KEY_FAIL_HARD) (level_says dc KEY_FAIL_HARD) Unset)) as [fh|] eqn:Hfh; [|discriminate].
   destruct (setting_on (doc_setting false (level_says uc KEY_NONEXIST) (level_says dc KEY_NONEXIST) Unset)) as [ne|] eqn:Hne; [|discriminate].
-  set (frs := map (fun id => nth id outc FPassed) RCPT_CBS) in *.
-  cbv zeta in Hobs. cbn [observe] in Hobs. injection Hobs as <-.
-  destruct (rcpt_policy_doc uc dc gc frs fh ne Hfh Hne) as [Hr [Hk [Hc _]]].
+  pose proof (all_results_disciplined slots s uc dc gc results Hcl Eres) as Hdisc.
+  set (inorder := map (fun id => nth id results passed) RCPT_CBS) in *.
+  assert (Hin : Forall disciplined inorder).
+  { unfold inorder. apply Forall_forall. intros x Hx. apply in_map_iff in Hx. destruct Hx as [id [Hx _]]. subst x.
+    apply nth_disciplined. exact Hdisc. }
+  cbv zeta in Hobs. cbn [observe] in Hobs. apply Some_inj in Hobs. subst obs.
+  destruct (rcpt_policy_doc uc dc gc (map fst inorder) fh ne Hfh Hne) as [Hr [Hk [Hc _]]].
   rewrite Hr, Hk, Hc.
-  pose proof (filtermsg_doc fh ne frs false) as Hm.
-  destruct (doc_combine fh ne frs false 0) as [o n] eqn:Edc. cbn [fst snd] in *.
-  rewrite Hm. rewrite templates_fit. rewrite nat_list_eqb_refl.
+  pose proof (msgs_doc fh ne inorder Hin false) as Hm.
+  destruct (doc_combine fh ne (map fst inorder) false 0) as [o n] eqn:Edc. cbn [fst snd] in *.
+  assert (Hfit : reply_fits o (map head9 (collect_msgs (firstn n inorder)) ++
+                               match model_reply o with RNone => [] | RLine t => [head9 t] end) (is_accept o) = true).
+  { destruct Hm as [[Hnb Hnil]|[Ho [t [Ht Hg]]]].
+    - rewrite Hnil. simpl. apply templates_fit. exact Hnb.
+    - subst o. rewrite Ht. simpl. exact Hg. }
+  rewrite Hfit. rewrite nat_list_eqb_refl.
   rewrite (probe_fits_of_model _ _ (getsetting_doc uc dc gc key)).
   rewrite (probe_fits_of_model _ _ (getsettingglobal_doc uc dc gc key)).
   rewrite filter_view_fits_of_model.
@@ -621,3 +751,49 @@ Proof. cbn [level_says]. rewrite entry_says_value. reflexivity. Qed.
 
 Lemma level_says_skip key e rest : entry_says key e = None -> level_says (e :: rest) key = level_says rest key.
 Proof. intros H. cbn [level_says]. rewrite H. reflexivity. Qed.
+
+(* ------------------------------------------------------------------------------------------------ *)
+(** * F. finding F-C12-3: the real cb_spf answers a temporary SPF error itself and reports "denied with message" *)
+
+Lemma spf_switch_temperror p : spf_switch p SPF_TEMPERROR = STemp.
+Proof.
+  unfold spf_switch, spf_case6, spf_case5, spf_case4, spf_case3, spf_case2, spf_case1.
+  repeat match goal with |- context [Z.eqb p ?k] => destruct (Z.eqb p k) end; reflexivity.
+Qed.
+
+Lemma cb_spf_temp s uc dc gc :
+  s_spf s = SPF_TEMPERROR ->
+  (0 < setting_value (getsettingglobal uc dc gc KEY_SPFPOLICY))%Z ->
+  (setting_value (getsetting uc dc gc KEY_SPF_FAIL_HARD) <= 0)%Z ->
+  cb_spf s uc dc gc = (FDeniedMsg, Some REPLY_SPF_TEMP) /\ nth 0 REPLY_SPF_TEMP 0%N = 52%N.
+Proof.
+  intros Hs Hp Hf. split; [|reflexivity]. unfold cb_spf. cbv zeta. rewrite Hs.
+  change (N.eqb SPF_TEMPERROR SPF_PASS || N.eqb SPF_TEMPERROR SPF_IGNORE) with false. cbv iota.
+  destruct (setting_value (getsettingglobal uc dc gc KEY_SPFPOLICY) <=? 0)%Z eqn:E; [apply Z.leb_le in E; lia|].
+  rewrite spf_switch_temperror.
+  destruct (setting_value (getsetting uc dc gc KEY_SPF_FAIL_HARD) <=? 0)%Z eqn:E2; [|apply Z.leb_gt in E2; lia].
+  reflexivity.
+Qed.
+
+(** the checker's statement without the class hypothesis *)
+Definition checker_full : Prop := forall outcomes um uf dm df gm gf key sess obs,
+  observe (rcpt_case outcomes um uf dm df gm gf key sess) = Some obs ->
+  spec_ok_C12 outcomes um uf dm df gm gf key sess obs <> VBad.
+
+(** witness: every filter passes except the real cb_spf (SPF status: temporary error) and the dnsbl stand-in, which
+    denies permanently; control/filterconf holds "spfpolicy=1"; nothing at user and domain level *)
+Definition w_outcomes : bytes := [1; 1; 1; 1; 3; 1; 1; 1; 1; 1; 1; 1; 1; 128; 1; 1]%N.
+Definition w_global : bytes := KEY_SPFPOLICY ++ [61; 49; 10]%N.
+Definition w_session : bytes := [7; 0; 0; 0; 0]%N.
+
+Theorem checker_refuted : ~ checker_full.
+Proof.
+  intros H.
+  destruct (observe (rcpt_case w_outcomes 1 [] 1 [] 2 w_global [102]%N w_session)) as [obs|] eqn:E;
+    [|vm_compute in E; discriminate].
+  apply (H _ _ _ _ _ _ _ _ _ obs E).
+  vm_compute in E. apply Some_inj in E. subst obs. vm_compute. reflexivity.
+Qed.
+
+Lemma witness_in_class : in_spf_temp_class w_outcomes 1 [] 1 [] 2 w_global w_session = true.
+Proof. vm_compute. reflexivity. Qed.
